@@ -126,9 +126,12 @@ for _p in PROPS.values():
 # sweep; each target compares the crate with a specification written out in the target, confined to one property's
 # comparisons by CKC_FUZZ_PROP.  Never a proof, never the deciding method.
 FUZZ = {
-    "C01": ["rank"], "C02": ["rank"], "C03": ["rank"], "C08": ["rank", "words"], "C09": ["rank"],
+    "C01": ["rank"], "C02": ["rank"], "C03": ["rank"], "C06": ["rank"], "C08": ["rank", "words"], "C09": ["rank"],
     "C04": ["words"], "C05": ["words"], "C10": ["words"], "C11": ["words"], "C19": ["hist", "words"],
     "C12": ["text"], "C14": ["sets", "words"], "C15": ["sets", "text", "words"], "C16": ["sets"],
 }
 for _k, _v in FUZZ.items():
     PROPS[_k]["fuzz"] = _v
+
+# files whose non-test code a property depends on beyond its `anchors.files` (source-drift escalation, state scan)
+PROPS["C06"]["extra_anchors"] = ["src/cards/five.rs", "src/cards/six.rs", "src/cards/seven.rs"]
